@@ -185,6 +185,12 @@ pub enum Op
     Trig(u8, u8),
     Rm(u8, u8),
     Desp(u8),
+    /// `EntityCommands::despawn_recursive`
+    DespRec(u8),
+    /// direct world access from a queued closure: `World::despawn`, `despawn_with_children_recursive`, `EntityWorldMut::remove`
+    XDesp(u8),
+    XDespRec(u8),
+    XRm(u8, u8),
     DespSys(u8),
     /// mode, system, bundle, token id (0 = none)
     Reg(String, u8, Vec<Trig>, u32),
@@ -229,6 +235,10 @@ impl Op
             "trig" => Op::Trig(n8(1), n8(2)),
             "rm" => Op::Rm(n8(1), n8(2)),
             "desp" => Op::Desp(n8(1)),
+            "desprec" => Op::DespRec(n8(1)),
+            "xdesp" => Op::XDesp(n8(1)),
+            "xdesprec" => Op::XDespRec(n8(1)),
+            "xrm" => Op::XRm(n8(1), n8(2)),
             "despsys" => Op::DespSys(n8(1)),
             "reg" => Op::Reg(a[1].as_str().unwrap().to_string(), n8(2), bundle_from(&a[3]), n32(4)),
             "once" => Op::Once(n8(1), bundle_from(&a[2]), n32(3)),
@@ -264,6 +274,10 @@ impl Op
             Op::Trig(e, c) => json!(["trig", e, c]),
             Op::Rm(e, c) => json!(["rm", e, c]),
             Op::Desp(e) => json!(["desp", e]),
+            Op::DespRec(e) => json!(["desprec", e]),
+            Op::XDesp(e) => json!(["xdesp", e]),
+            Op::XDespRec(e) => json!(["xdesprec", e]),
+            Op::XRm(e, c) => json!(["xrm", e, c]),
             Op::DespSys(s) => json!(["despsys", s]),
             Op::Reg(m, s, b, k) => json!(["reg", m, s, bundle_to(b), k]),
             Op::Once(s, b, k) => json!(["once", s, bundle_to(b), k]),
@@ -321,6 +335,8 @@ pub enum Step
     Clear,
     /// A frame: the ops are issued by a plain system in `Update`, then the rest of `App::update` as in `Clear`.
     Frame(Vec<Op>),
+    /// Direct world access between trees: the ops (`xdesp`, `xdesprec`, `xrm`) act on `&mut World` with no command queue.
+    Direct(Vec<Op>),
 }
 
 impl Step
@@ -333,6 +349,7 @@ impl Step
             "poll" => Step::Poll,
             "clear" => Step::Clear,
             "frame" => Step::Frame(v["ops"].as_array().map(|a| a.iter().map(Op::from_json).collect()).unwrap_or_default()),
+            "direct" => Step::Direct(v["ops"].as_array().map(|a| a.iter().map(Op::from_json).collect()).unwrap_or_default()),
             _ => Step::Ops(v["ops"].as_array().map(|a| a.iter().map(Op::from_json).collect()).unwrap_or_default()),
         }
     }
@@ -344,6 +361,7 @@ impl Step
             Step::Poll => json!({"kind":"poll"}),
             Step::Clear => json!({"kind":"clear"}),
             Step::Frame(ops) => json!({"kind":"frame","ops":ops.iter().map(|o| o.to_json()).collect::<Vec<_>>()}),
+            Step::Direct(ops) => json!({"kind":"direct","ops":ops.iter().map(|o| o.to_json()).collect::<Vec<_>>()}),
             Step::Ops(ops) => json!({"kind":"ops","ops":ops.iter().map(|o| o.to_json()).collect::<Vec<_>>()}),
         }
     }
@@ -361,6 +379,8 @@ pub struct Config
     /// Number of world reactors / entity world reactors registered up front (0..=2 / 0..=1).
     pub nworld: usize,
     pub neworld: usize,
+    /// Entities 1..=hier form a parent chain (entity e + 1 is the child of entity e).
+    pub hier: usize,
 }
 
 impl Config
@@ -374,11 +394,12 @@ impl Config
             nent: v["nent"].as_u64().unwrap_or(2) as usize,
             nworld: v["nworld"].as_u64().unwrap_or(0) as usize,
             neworld: v["neworld"].as_u64().unwrap_or(0) as usize,
+            hier: v["hier"].as_u64().unwrap_or(0) as usize,
         }
     }
     pub fn to_json(&self) -> Value
     {
-        json!({"kinds": self.kinds, "nonce": self.nonce, "nent": self.nent, "nworld": self.nworld, "neworld": self.neworld})
+        json!({"kinds": self.kinds, "nonce": self.nonce, "nent": self.nent, "nworld": self.nworld, "neworld": self.neworld, "hier": self.hier})
     }
     pub fn nsys(&self) -> usize { self.kinds.len() }
 }
